@@ -93,7 +93,8 @@ def limiter(ctx, fams):
         skip2 = fld(d, so, ctx.structs, 'Limiter', 'skip').t
         should_fwd = z3.And(skipped == skip, z3.Or(z3.Not(has), z3.ULT(passed, lim)))
         fwd = z3.BoolVal(len(nx) == 1 and nx[0][3] is not None and origin(d, nx[0][3]) == 'ctx')
-        conj = [z3.BoolVal(len(nx) <= 1), should_fwd == fwd]
+        others = [e for e in next_events(d) if e[1] != 'process']
+        conj = [z3.BoolVal(len(nx) <= 1), should_fwd == fwd, z3.BoolVal(not others)]      # process() never starts or completes the successor
         if nx:
             nrd, npd = result_parts(ex, d, nx[0][4])
             okn = nrd == 0
